@@ -42,6 +42,9 @@ def main():
     t0 = time.time()
     res = eng.run_shard(prop, spec, tier, seed, shard, nshards, scratch)
     res["wall"] = time.time() - t0
+    from . import monitors as M
+
+    res["lines"] = M.lines_reached()
     jdump_file(res, outp)
 
 
